@@ -4,7 +4,7 @@ SPEC = dict(
     design_ref="§3-C31",
     technique="bounded-exhaustive enumeration (S2): all W8 word vectors; every alignment offset x length x content through every conversion function under "
               "catch_unwind; every J(n) index rebuilt from serialised parts and re-checked with the full C06/C07 query set",
-    rule="cases: word vectors (length <= 6/8 over W8); (alignment offset 0..7, length, content, function); documents whose index is rebuilt via "
+    rule="cases: word vectors (length <= 6/9 over W8); (alignment offset 0..7, length, content, function); documents whose index is rebuilt via "
          "from_parts (owned and borrowed); distinct_nontrivial counts distinct trees, (offset,len,content) cells and a 1/9973 slice of the word vectors",
     level_text="words_to_bytes must produce the little-endian bytes and the three readers must give the words back; at every alignment offset 0..7 of an "
                "8-aligned buffer a slice whose length is a multiple of 8 must convert (try_ form: None exactly for bad lengths, never a panic); indexes "
